@@ -4,6 +4,8 @@
 name: array_count
 define: U_COUNT
 src: array.c
+native: array_list
+native_includes: array.c
 enforce: spif_array_count
 backend: sat
 */
@@ -11,6 +13,8 @@ backend: sat
 name: array_get
 define: U_GET
 src: array.c
+native: array_list
+native_includes: array.c
 enforce: spif_array_get
 backend: sat
 */
@@ -18,6 +22,8 @@ backend: sat
 name: array_append
 define: U_APPEND
 src: array.c
+native: array_list
+native_includes: array.c
 enforce: spif_array_append
 backend: sat
 */
@@ -27,11 +33,11 @@ backend: sat
 #include "array.h"
 #include "src/array.c"
 
-long w_len, w_idx;
+long w_idx;
 
 #ifdef U_COUNT
 static spif_listidx_t spif_array_count(spif_array_t self)
-__CPROVER_requires(ARRAY_VALID(self))
+__CPROVER_requires(ARRAY_VALID_W(self))
 __CPROVER_assigns()
 __CPROVER_ensures(__CPROVER_return_value == self->len)
 ;
@@ -41,7 +47,7 @@ void harness(void) { spif_array_t self; spif_array_count(self); VERIF_CANARY(); 
 #ifdef U_GET
 /* get(i): i in [-len, len) -> element at the normalised position; anything else -> NULL; pure */
 static spif_obj_t spif_array_get(spif_array_t self, spif_listidx_t idx)
-__CPROVER_requires(ARRAY_VALID(self))
+__CPROVER_requires(ARRAY_VALID_W(self))
 __CPROVER_assigns()
 __CPROVER_ensures((idx >= 0 && idx < self->len) ? __CPROVER_return_value == self->items[idx] :
                   ((idx < 0 && idx >= -self->len) ? __CPROVER_return_value == self->items[idx + self->len]
@@ -52,7 +58,7 @@ void harness(void) { spif_array_t self; spif_listidx_t idx; w_idx = idx; spif_ar
 
 #ifdef U_APPEND
 static spif_bool_t spif_array_append(spif_array_t self, spif_obj_t obj)
-__CPROVER_requires(ARRAY_VALID(self) && self->len < VCAPL && SNAP_ITEM(self, vg_k, vg_old_k))
+__CPROVER_requires(ARRAY_VALID_W(self) && self->len < VCAPL && SNAP_ITEM(self, vg_k, vg_old_k))
 __CPROVER_assigns(ARRAY_FRAME(self))
 __CPROVER_frees(self->items)
 __CPROVER_ensures(__CPROVER_return_value == TRUE)
@@ -67,6 +73,8 @@ void harness(void) { spif_array_t self; spif_obj_t obj = nondet_ptr(); spif_arra
 name: array_remove_at
 define: U_REMOVE_AT
 src: array.c
+native: array_list
+native_includes: array.c
 enforce: spif_array_remove_at
 backend: sat
 flags: --slice-formula
@@ -76,7 +84,7 @@ timeout: 600
 /* remove_at(i): normalised position n outside [0,len) -> NULL, nothing changes.  Otherwise the
  * element at n is handed back (not freed), the ones behind it move down by one, len-1 slots. */
 static spif_obj_t spif_array_remove_at(spif_array_t self, spif_listidx_t idx)
-__CPROVER_requires(ARRAY_VALID(self))
+__CPROVER_requires(ARRAY_VALID_W(self))
 __CPROVER_requires(SNAP_ITEM(self, vg_k, vg_old_k) && SNAP_ITEM(self, vg_k + 1, vg_old_k2))
 __CPROVER_requires(NORM(idx, self->len) < 0 || SNAP_ITEM(self, (size_t) NORM(idx, self->len), vg_old_x))
 __CPROVER_assigns(ARRAY_FRAME(self))
@@ -102,6 +110,8 @@ void harness(void)
 name: array_insert_at.null
 define: U_INSERT_AT, B_NULL
 src: array.c
+native: array_list
+native_includes: array.c
 enforce: spif_array_insert_at
 backend: sat
 flags: --slice-formula
@@ -111,6 +121,8 @@ timeout: 600
 name: array_insert_at.neg
 define: U_INSERT_AT, B_NEG
 src: array.c
+native: array_list
+native_includes: array.c
 enforce: spif_array_insert_at
 backend: sat
 flags: --slice-formula
@@ -120,6 +132,8 @@ timeout: 600
 name: array_insert_at.mid
 define: U_INSERT_AT, B_MID
 src: array.c
+native: array_list
+native_includes: array.c
 enforce: spif_array_insert_at
 backend: sat
 flags: --slice-formula
@@ -129,6 +143,8 @@ timeout: 600
 name: array_insert_at.grow
 define: U_INSERT_AT, B_GROW
 src: array.c
+native: array_list
+native_includes: array.c
 enforce: spif_array_insert_at
 backend: sat
 flags: --slice-formula
@@ -151,7 +167,7 @@ timeout: 600
 #endif
 #define ON NORM(idx, OLD_LEN(self))
 static spif_bool_t spif_array_insert_at(spif_array_t self, spif_obj_t obj, spif_listidx_t idx)
-__CPROVER_requires(ARRAY_VALID(self) && self->len < VCAPL && idx < VCAPL && BEHAV)
+__CPROVER_requires(ARRAY_VALID_W(self) && self->len < VCAPL && idx < VCAPL && BEHAV)
 __CPROVER_requires(SNAP_ITEM(self, vg_k, vg_old_k))
 __CPROVER_assigns(ARRAY_FRAME(self))
 __CPROVER_frees(self->items)
@@ -179,6 +195,8 @@ void harness(void)
 name: array_prepend
 define: U_PREPEND
 src: array.c
+native: array_list
+native_includes: array.c
 enforce: spif_array_prepend
 backend: sat
 flags: --slice-formula
@@ -186,7 +204,7 @@ timeout: 600
 */
 #ifdef U_PREPEND
 static spif_bool_t spif_array_prepend(spif_array_t self, spif_obj_t obj)
-__CPROVER_requires(ARRAY_VALID(self) && self->len < VCAPL && SNAP_ITEM(self, vg_k, vg_old_k))
+__CPROVER_requires(ARRAY_VALID_W(self) && self->len < VCAPL && SNAP_ITEM(self, vg_k, vg_old_k))
 __CPROVER_assigns(ARRAY_FRAME(self))
 __CPROVER_frees(self->items)
 __CPROVER_ensures(ARRAY_POST(self))
@@ -202,13 +220,15 @@ void harness(void) { spif_array_t self; spif_obj_t obj = nondet_ptr(); spif_arra
 name: array_reverse
 define: U_REVERSE
 src: array.c
+native: array_list
+native_includes: array.c
 enforce: spif_array_reverse
 backend: sat
 loops: 1
 */
 #ifdef U_REVERSE
 static spif_bool_t spif_array_reverse(spif_array_t self)
-__CPROVER_requires(ARRAY_VALID(self) && SNAP_ITEM(self, vg_k, vg_old_k))
+__CPROVER_requires(ARRAY_VALID_W(self) && SNAP_ITEM(self, vg_k, vg_old_k))
 __CPROVER_requires(vg_k >= (size_t) self->len || self->items[(size_t) self->len - 1 - vg_k] == vg_old_k2)
 __CPROVER_assigns(self->items != NULL: __CPROVER_object_whole(self->items))
 __CPROVER_ensures(__CPROVER_return_value == TRUE && ARRAY_POST(self))
@@ -222,6 +242,8 @@ void harness(void) { spif_array_t self; spif_array_reverse(self); VERIF_CANARY()
 name: array_to_array
 define: U_TO_ARRAY
 src: array.c
+native: array_list
+native_includes: array.c
 enforce: spif_array_to_array
 backend: sat
 loops: 1
@@ -229,7 +251,7 @@ loops: 1
 #ifdef U_TO_ARRAY
 /* result: caller-owned fresh block of len slots equal to the view; the container is untouched */
 static spif_obj_t *spif_array_to_array(spif_array_t self)
-__CPROVER_requires(ARRAY_VALID(self))
+__CPROVER_requires(ARRAY_VALID_W(self))
 __CPROVER_assigns()
 __CPROVER_ensures(__CPROVER_is_fresh(__CPROVER_return_value, ASZ(self->len)))
 __CPROVER_ensures(vg_k >= (size_t) self->len || __CPROVER_return_value[vg_k] == self->items[vg_k])
@@ -241,6 +263,8 @@ void harness(void) { spif_array_t self; spif_array_to_array(self); VERIF_CANARY(
 name: array_index
 define: U_INDEX
 src: array.c
+native: array_list
+native_includes: array.c
 enforce: spif_array_index
 backend: sat
 loops: 1
@@ -248,7 +272,7 @@ loops: 1
 #ifdef U_INDEX
 /* index(x): the FIRST position whose slot matches x, -1 if none (pair model of env_array.h) */
 static spif_listidx_t spif_array_index(spif_array_t self, spif_obj_t obj)
-__CPROVER_requires(ARRAY_VALID(self) && SNAP_ITEM(self, vg_k, vg_old_k))
+__CPROVER_requires(ARRAY_VALID_W(self) && SNAP_ITEM(self, vg_k, vg_old_k))
 __CPROVER_requires(vg_ca == vg_old_k && vg_cb == obj && VA_CMP_OK(vg_cr))
 __CPROVER_assigns()
 __CPROVER_ensures(__CPROVER_return_value >= -1 && __CPROVER_return_value < self->len)
@@ -263,6 +287,8 @@ void harness(void) { spif_array_t self; spif_obj_t obj = nondet_ptr(); spif_arra
 name: array_list_find
 define: U_LIST_FIND
 src: array.c
+native: array_list
+native_includes: array.c
 enforce: spif_array_list_find
 backend: sat
 loops: 1
@@ -271,6 +297,8 @@ loops: 1
 name: array_list_contains
 define: U_LIST_CONTAINS
 src: array.c
+native: array_list
+native_includes: array.c
 enforce: spif_array_list_contains
 replace: spif_array_list_find
 backend: sat
@@ -278,7 +306,7 @@ backend: sat
 #if defined(U_LIST_FIND) || defined(U_LIST_CONTAINS)
 /* find(x): the first stored element equal to x (placeholders skipped), NULL iff none / x NULL.
  * vg_exit = position of the element handed back. */
-#define FIND_PRE  (ARRAY_VALID(self) && SNAP_ITEM(self, vg_k, vg_old_k) && vg_ca == vg_old_k && vg_cb == obj && VA_CMP_OK(vg_cr))
+#define FIND_PRE  (ARRAY_VALID_W(self) && SNAP_ITEM(self, vg_k, vg_old_k) && vg_ca == vg_old_k && vg_cb == obj && VA_CMP_OK(vg_cr))
 #define FIND_NONE (vg_k >= (size_t) self->len || obj == (spif_obj_t) NULL || !VA_MATCH_FIND)
 #define FIND_SOME (obj != (spif_obj_t) NULL && vg_exit < (size_t) self->len && \
                    (vg_k != vg_exit || VA_MATCH_FIND) && (vg_k >= vg_exit || !VA_MATCH_FIND))
@@ -308,6 +336,8 @@ void harness(void) { spif_array_t self; spif_obj_t obj = nondet_ptr(); spif_arra
 name: array_remove
 define: U_REMOVE
 src: array.c
+native: array_list
+native_includes: array.c
 enforce: spif_array_remove
 backend: sat
 flags: --slice-formula
@@ -318,7 +348,7 @@ loops: 1
 /* remove(x): takes out the FIRST element equal to x and hands it back (not freed); the elements
  * behind it move down; NULL and no change if there is none or x is NULL.  vg_exit = its position. */
 static spif_obj_t spif_array_remove(spif_array_t self, spif_obj_t item)
-__CPROVER_requires(ARRAY_VALID(self) && SNAP_ITEM(self, vg_k, vg_old_k) && SNAP_ITEM(self, vg_k + 1, vg_old_k2))
+__CPROVER_requires(ARRAY_VALID_W(self) && SNAP_ITEM(self, vg_k, vg_old_k) && SNAP_ITEM(self, vg_k + 1, vg_old_k2))
 __CPROVER_requires(vg_ca == item && vg_cb == vg_old_k && VA_CMP_OK(vg_cr))
 __CPROVER_assigns(ARRAY_FRAME(self); vg_exit)
 __CPROVER_frees(self->items)
